@@ -255,8 +255,39 @@ func (g *mgen) children(n, depth int, rels []string, hasThis *bool, self string)
 	return ch
 }
 
+// spine: d nested operators, one per level, at a random operand position (the ordinary trees have two levels).
+func (g *mgen) spine(d int, rels []string, hasThis *bool, self string) *openfgav1.Userset {
+	r := g.r
+	if d == 0 {
+		return g.userset(99, rels, hasThis, self)
+	}
+	inner := g.spine(d-1, rels, hasThis, self)
+	n := 2 + r.Intn(2)
+	op := r.Intn(3)
+	if op == 2 {
+		n = 2
+	}
+	ch := g.children(n-1, 99, rels, hasThis, self)
+	at := r.Intn(n)
+	all := append(append(append([]*openfgav1.Userset{}, ch[:min(at, len(ch))]...), inner), ch[min(at, len(ch)):]...)
+	switch op {
+	case 0:
+		return Union(all...)
+	case 1:
+		return Inter(all...)
+	}
+	return Diff(all[0], all[1])
+}
+
 func (g *mgen) userset(depth int, rels []string, hasThis *bool, self string) *openfgav1.Userset {
 	r := g.r
+	if depth == 0 && r.Intn(16) == 0 {
+		d := 3 + r.Intn(6)
+		if r.Intn(8) == 0 {
+			d = 30 + r.Intn(50)
+		}
+		return g.spine(d, rels, hasThis, self)
+	}
 	k := r.Intn(10)
 	if depth >= 2 && k >= 6 {
 		k = r.Intn(6)
